@@ -21,9 +21,10 @@ read back on its own by `expandApkWriter.Next`.
 
 Read-ahead is explicit.  The gzip reader pulls from its `bufio.Reader`, which pulls from the tee: every byte PULLED goes
 to the current stream file and to the current hash, whether or not the decompressor ever consumes it, and
-`gzi.Reset` throws the unconsumed rest away.  With reads of `c` bytes a member of `n` bytes costs `pulled c n avail`
+`gzi.Reset` throws the unconsumed rest away.  The source answers reads in chunks of any sizes (`rd`: a function of the
+bytes still unread), `expandApkReader` passes on at most `c` bytes of each; a member of `n` bytes costs `pulled c rd n avail`
 bytes.  The code reads ONE byte at a time until the data section starts (`Impl.slowChunk = 1`, tied to the source), so
-`pulled = n`; `chunk_two_hashes_beyond_control` (Proofs/C05Split) shows what any larger value does.  In the data
+`pulled = n` whatever `rd` is; `read_ahead_hashes_beyond_control` (Proofs/C05Split) shows what any larger value does.  In the data
 section the reader is drained to the end of the source (`io.Copy(io.Discard, tr)` until `io.EOF`; the gzip reader is in
 multistream mode), so every remaining byte is pulled whatever the read sizes are: they do not appear.
 -/
@@ -86,9 +87,21 @@ inductive SErr where
   | index     -- `ControlData`, `PackageData`, `tarfs.New` on the files written
   deriving DecidableEq, Repr
 
-/-- bytes pulled from the source to let the decompressor consume `need` of them, with reads of `c` bytes -/
-def pulled (c need avail : Nat) : Nat :=
-  if c ≤ 1 then min avail need else min avail ((need + c - 1) / c * c)
+/-- size of the next read as the buffer of the decompressor sees it before `EnableFastRead`, when `left` bytes of the
+source are unread: the source would answer with `rd left` bytes (any chunking of a source is such a function; at least
+one byte), `expandApkReader` asks for — and passes on — at most `c` -/
+def slowRead (c : Nat) (rd : Nat → Nat) (left : Nat) : Nat := max 1 (min c (rd left))
+
+/-- read until `need` bytes are there (or the source is exhausted); the result is how many bytes were pulled -/
+def pullLoop (c : Nat) (rd : Nat → Nat) (need avail : Nat) : Nat → Nat → Nat
+  | 0, got => min got avail
+  | fuel + 1, got =>
+    if need ≤ got ∨ avail ≤ got then min got avail
+    else pullLoop c rd need avail fuel (got + slowRead c rd (avail - got))
+
+/-- bytes pulled from the source to let the decompressor consume `need` of them (every read delivers at least one byte,
+so `need` reads are enough) -/
+def pulled (c : Nat) (rd : Nat → Nat) (need avail : Nat) : Nat := pullLoop c rd need avail need 0
 
 /-- state of the member loop of `ExpandApk` -/
 structure St where
@@ -122,9 +135,9 @@ def St.reached (st : St) : Bool := decide (st.maxStreams ≤ st.created)
 
 /-- a control-side member: one-byte reads, `Multistream(false)`, `io.Copy(io.Discard, gzi)`; what was pulled is in
 the file and in the SHA-1 -/
-def readSlow (H : Hashes) (c : Nat) (st : St) (n : Nat) : St :=
-  let got := st.src.take (pulled c n st.src.length)
-  { st with src := st.src.drop (pulled c n st.src.length),
+def readSlow (H : Hashes) (c : Nat) (rd : Nat → Nat) (st : St) (n : Nat) : St :=
+  let got := st.src.take (pulled c rd n st.src.length)
+  { st with src := st.src.drop (pulled c rd n st.src.length),
             first := if st.created = 1 then got else st.first,
             streams := st.streams ++ [got],
             hashes := st.hashes ++ [H.sha1 got] }
@@ -144,7 +157,7 @@ def readData (G : Gz) (H : Hashes) (st : St) : Except SErr St :=
       else .error .stream
 
 /-- one pass of the `for` loop; `true` = the loop is left -/
-def iter (G : Gz) (H : Hashes) (c : Nat) (st : St) : Except SErr (St × Bool) :=
+def iter (G : Gz) (H : Hashes) (c : Nat) (rd : Nat → Nat) (st : St) : Except SErr (St × Bool) :=
   match swNext G st with
   | none => .error .sign
   | some st =>
@@ -157,15 +170,15 @@ def iter (G : Gz) (H : Hashes) (c : Nat) (st : St) : Except SErr (St × Bool) :=
           match readData G H st with
           | .error e => .error e
           | .ok st' => .ok (st', true)
-        else .ok (readSlow H c st n, false)
+        else .ok (readSlow H c rd st n, false)
 
-def loop (G : Gz) (H : Hashes) (c : Nat) : Nat → St → Except SErr St
+def loop (G : Gz) (H : Hashes) (c : Nat) (rd : Nat → Nat) : Nat → St → Except SErr St
   | 0, _ => .error .stream
   | fuel + 1, st =>
-    match iter G H c st with
+    match iter G H c rd st with
     | .error e => .error e
     | .ok (st', true) => .ok st'
-    | .ok (st', false) => loop G H c fuel st'
+    | .ok (st', false) => loop G H c rd fuel st'
 
 /-- `maxStreams ≤ 3`: the fourth pass cannot start -/
 def loopFuel : Nat := 4
@@ -222,8 +235,8 @@ def finish (G : Gz) (strict : Bool) (st : St) : Except SErr Out :=
   | [s, c, d], [hs, hc, hd] => if strict && !st.checked then .error .nodata else build G st (some (s, hs)) c d hc hd
   | _, _ => .error .count
 
-def expandStream (G : Gz) (H : Hashes) (c : Nat) (strict : Bool) (src : Bytes) : Except SErr Out :=
-  match loop G H c loopFuel { src := src } with
+def expandStream (G : Gz) (H : Hashes) (c : Nat) (rd : Nat → Nat) (strict : Bool) (src : Bytes) : Except SErr Out :=
+  match loop G H c rd loopFuel { src := src } with
   | .error e => .error e
   | .ok st => finish G strict st
 
@@ -232,7 +245,7 @@ namespace Impl
 def slowChunk : Nat := 1
 /-- does today's `ExpandApk` refuse a source that ends before the data section? (tied to `Generated.expandApkRequiresData`) -/
 def strict : Bool := true
-def expandStream (G : Gz) (H : Hashes) := ExpandSplit.expandStream G H slowChunk strict
+def expandStream (G : Gz) (H : Hashes) (rd : Nat → Nat) := ExpandSplit.expandStream G H slowChunk rd strict
 end Impl
 
 /-! ### the byte ranges the apk format defines (Spec) -/
@@ -307,7 +320,7 @@ def SErr.toErr : SErr → Err
   | _ => .decode
 
 /-- `expandPackage` of Model/Authentic with `ExpandApk` run on the fetched bytes instead of a pre-split `Apk` -/
-def expandPackageStream (verify strict : Bool) (G : Gz) (H : Hashes) (expected : Want) (cache : Option Cache)
+def expandPackageStream (verify strict : Bool) (G : Gz) (H : Hashes) (rd : Nat → Nat) (expected : Want) (cache : Option Cache)
     (fetched : Option Bytes) : Except Err (Expanded × Option Cache) :=
   match cache.bind (cachedPackage (libOf G H) expected.key) with
   | some e => .ok (e, cache)
@@ -315,7 +328,7 @@ def expandPackageStream (verify strict : Bool) (G : Gz) (H : Hashes) (expected :
     match fetched with
     | none => .error .fetch
     | some s =>
-      match expandStream G H Impl.slowChunk strict s with
+      match expandStream G H Impl.slowChunk rd strict s with
       | .error x => .error x.toErr
       | .ok o =>
         match (if verify then verifyExpanded (libOf G H) expected.digest o.expanded else .ok ()) with
